@@ -8,7 +8,7 @@
    attribute `empty` reads, per layer (name, value the cell attribute reads, value in the layer)); wf_side = the
    representation invariant of a side (Proofs/CopyProofs.v); Inv = all sides well formed and pairwise separated. *)
 From Coq Require Import ZArith List Bool.
-From Mesa Require Import Model.Copy Proofs.CopyProofs Proofs.CopyInvProofs.
+From Mesa Require Import Model.Copy Proofs.CopyProofs Proofs.CopyInvProofs Proofs.CopyFreshProofs.
 Import ListNotations.
 Open Scope Z_scope.
 
@@ -133,15 +133,37 @@ Theorem C19_agentset_independent : forall st o k ss,
 Proof. exact step_set_independent. Qed.
 Print Assumptions C19_agentset_independent.
 
-(* C19_behaves_fresh (full statement, NOT proved here):
-     forall h1 sd1 h2 sd2 ops, wf_side h1 sd1 -> wf_side h2 sd2 -> abs_side h1 sd1 = abs_side h2 sd2 ->
-       (same layer names, same on-grid labels) ->
-       the observations of running ops on sd1 in h1 and on sd2 in h2 coincide.
-   What is proved instead: the copy has the abstract state of its source (C19_faithful), is well formed
-   (C19_copy_wellformed) and - being a side like any other - obeys C19_invariant, C19_wired_always,
-   C19_attrs_wired_always along every further history; that the observation is a function of the abstract state is
-   true by construction (side_view := aside_view k (abs_side h sd) (wiredb h sd)).  On the implementation side the
-   twin oracle (harness/props/C19.py) checks exactly this statement. *)
+(* --- behaves like a freshly built space ------------------------------------------------------------ *)
+
+(* the second half of the representation invariant (cell i has coordinate index i, layer arrays have one entry per cell,
+   the program's label -> agent table is consistent and injective) also holds along every history *)
+Theorem C19_invariant2 : forall c ops, good_case c ->
+  Inv (run_states (init_state c) ops) /\ Inv2 (run_states (init_state c) ops).
+Proof. exact reachable_inv2. Qed.
+Print Assumptions C19_invariant2.
+
+(* refinement: along EVERY history of operations of a side (all eight kinds, incl. rejected moves and add / remove
+   layer) the result codes and the abstract states are exactly those the abstract machine `astep` (ordered lists of
+   labels per cell, capacities, layer values; no heap, no identities) computes from the abstract state at the start *)
+Theorem C19_refinement : forall h sd ops, side_ok h sd -> wf2 h sd ->
+  run_side h sd ops = arun (absf h sd) ops.
+Proof. exact refine_run. Qed.
+Print Assumptions C19_refinement.
+
+(* hence two sides - in whatever heaps, built in whatever way - that are in the same abstract state show the same
+   results and the same abstract states under the same operations, for ever *)
+Theorem C19_behaves_fresh : forall h1 sd1 h2 sd2 ops,
+  side_ok h1 sd1 -> wf2 h1 sd1 -> side_ok h2 sd2 -> wf2 h2 sd2 ->
+  absf h1 sd1 = absf h2 sd2 ->
+  run_side h1 sd1 ops = run_side h2 sd2 ops.
+Proof. exact behaves_fresh. Qed.
+Print Assumptions C19_behaves_fresh.
+
+(* in particular the copy, continued on its own, behaves exactly as its source would have *)
+Theorem C19_copy_behaves_like_source : forall h sd ops, side_ok h sd -> wf2 h sd ->
+  run_side (copy_heap h sd) (copy_side h sd) ops = run_side h sd ops.
+Proof. exact copy_behaves_like_source. Qed.
+Print Assumptions C19_copy_behaves_like_source.
 
 (* --- non-vacuity -------------------------------------------------------------------------------- *)
 (* a 2x2 von Neumann grid, capacity 2, one extra layer (name 1, default 3): place two agents, write a cell
@@ -200,4 +222,19 @@ Example C19_example_agentset :
 Proof.
   split; [apply (reachable_inv ex_set_case (c_ops ex_set_case)); apply good_caseb_ok; vm_compute; reflexivity|].
   vm_compute. split; reflexivity.
+Qed.
+
+(* hypotheses of C19_refinement / C19_behaves_fresh / C19_copy_behaves_like_source: the state before the copy; and a
+   history with a rejected move (capacity 2), a relative move, attribute writes and layer surgery does something *)
+Example C19_example_fresh :
+  exists sd, nth_error (st_sides ex_pre) 0 = Some sd /\ side_ok (st_heap ex_pre) sd /\ wf2 (st_heap ex_pre) sd /\
+    map snd (run_side (st_heap ex_pre) sd
+               [Move 0 3 3; Move 0 4 3; RelMove 0 1 7; SetAttr 0 0 1 5; AddLayer 0 2 4; DelLayer 0 1; Leave 0 9])
+    = [[0]; [-1; 1]; [0]; [0]; [0]; [0]; [-2]].
+Proof.
+  destruct (reachable_inv2 ex_case [Move 0 1 0; Move 0 2 3; SetAttr 0 3 1 7] C19_example_good) as [I I2].
+  fold ex_pre in I, I2.
+  destruct (nth_error (st_sides ex_pre) 0) as [sd|] eqn:E; [|vm_compute in E; discriminate].
+  exists sd. split; [reflexivity|]. split; [apply (inv_ok _ I O sd E)|]. split; [apply (I2 O sd E)|].
+  vm_compute in E. inversion E; subst. vm_compute. reflexivity.
 Qed.
